@@ -33,7 +33,7 @@ def run(ctx) -> int:
     default = semcheck.flags_only(*[t for t in semcheck.ALL_TRAITS if t != "duplication"])
     allf = semcheck.flags_only(*semcheck.ALL_TRAITS)
     singles = [semcheck.flags_only(t) for t in ("minmax_chains", "sum_chains", "inline", "math", "unused")]
-    return _generic.run_semantic(ctx, MODULE, LEVEL, RULE, [default, allf] + singles, "out", None, EXTRA, (700, 700), (700, 4000),
+    return _generic.run_semantic(ctx, MODULE, LEVEL, RULE, [default, allf] + singles, "out", None, EXTRA, (260, 700), (260, 4000),
                                  n_inst=4, generators=list(tgen.GENERATORS.values()), outp_choices=("auto",), one_to_one=False, program_filter=has_objective,
                                  assumptions=("costs are compared per priority with absent levels read as 0",))
 
